@@ -1,7 +1,7 @@
 (* C13 - the statements of Property.v, proved here so that Property.v only says `exact`. *)
 From Coq Require Import List ZArith Bool Arith.
 Import ListNotations.
-Require Import DH.C13_Storage.Model DH.C13_Storage.Lemmas DH.C13_Storage.Check DH.C13_Storage.LemmasRyw.
+Require Import DH.C13_Storage.Model DH.C13_Storage.Lemmas DH.C13_Storage.Check DH.C13_Storage.LemmasRyw DH.C13_Storage.LemmasExist.
 Open Scope Z_scope.
 
 Lemma C13_fresh_ids_proof : forall ops,
@@ -75,3 +75,6 @@ Proof.
           CreateJob 0; LoadJob (0, 0)].
   vm_compute. split; reflexivity.
 Qed.
+
+Lemma C13_created_stays_proof : forall ops, Spec_exist (combine ops (outs init ops)).
+Proof. intros. apply ok_exist_sound. apply model_ok_exist. Qed.
